@@ -316,6 +316,7 @@ func TestHandshakeCases(t *testing.T) {
 	os.MkdirAll(tmp, 0o755)
 	ow := newObsWriter(outp)
 	defer ow.close()
+	cw := newCaseWatch(ow, 40*time.Second)
 	workers := runtime.GOMAXPROCS(0)
 	if w, err := strconv.Atoi(os.Getenv("VERIF_WORKERS")); err == nil && w > 0 {
 		workers = w
@@ -330,7 +331,9 @@ func TestHandshakeCases(t *testing.T) {
 				if workers == 1 {
 					fmt.Printf("SCENARIO %s\n", c.Name)
 				}
+				cw.begin(c.Name)
 				cc, o := runHandshakeCase(c, tmp)
+				cw.end(c.Name)
 				ow.write(map[string]interface{}{"name": cc.Name, "line": cc.Line, "cfg": cc.Cfg, "variant": cc.Variant,
 					"offers": cc.Offers, "raw": cc.Raw, "out": o})
 			}
